@@ -25,7 +25,7 @@ fn cache_nodes(actor: &mut Actor, target: Id, with_token: bool) {
 }
 
 //@ ob: C06.O3
-//@ tier: thorough
+//@ tier: off
 //@ cap: 2700
 //@ mem: 20
 //@ standins: tracing lru vcoll flume
@@ -77,7 +77,7 @@ fn maintenance_skip(_a: &mut Actor) {}
 fn cache_skip(_c: &mut Core, _q: &IterativeQuery, _n: &[Node]) {}
 
 //@ ob: C06.O4
-//@ tier: thorough
+//@ tier: off
 //@ cap: 3000
 //@ mem: 28
 //@ standins: tracing lru vcoll flume
